@@ -205,6 +205,38 @@ def model_only(module, cfg_env, workers=4, timeout=1500, label=None, config=None
     j.out = res["out"]
     return j
 
+def literal_jobs(cfgs, harness_cfgs):
+    """C20: TLC generates the literal grid for each modulus; the literals are compiled as constants of
+    the real macros (gen_lit.rs, rebuilt when the grid changes) and compared with what they must denote."""
+    tmp = tempfile.mkdtemp(prefix="vfL_")
+    jobs = []
+    try:
+        stats = {}
+        for c in cfgs:
+            res = run_tlc("mc", "MC_Literal", env={"CFG": c, "EMIT_FILE": "%s/%s.ndjson" % (tmp, c)}, workers=2, timeout=600)
+            if tlc_failed(res): raise ToolError("TLC failed on MC_Literal %s:\n%s" % (c, res["out"][-2000:]))
+            stats[c] = res
+        r = subprocess.run(["python3", V + "/lib/gen_lit.py"] + ["%s=%s/%s.ndjson" % (c, tmp, c) for c in cfgs], capture_output=True, text=True)
+        if r.returncode != 0: raise ToolError("gen_lit failed: " + r.stderr[-2000:])
+        binpath = build()
+        for hc in harness_cfgs:
+            base = hc[:-1] if hc.endswith("h") else hc
+            j = Job("A:literal:%s" % hc); t0 = time.time()
+            j.cmd = "CFG=%s tlcrun.sh spec/mc MC_Literal | gen_lit.py | cargo build | vh-core replay literal --cfg %s" % (base, hc)
+            j.states = stats[base]["distinct"]; j.transitions = stats[base]["generated"] - stats[base]["initial"]; j.exhaustive = True
+            with open("%s/%s.ndjson" % (tmp, base)) as f:
+                rr = subprocess.run([binpath, "replay", "literal", "--cfg", hc], stdin=f, capture_output=True, text=True, timeout=600)
+            if rr.returncode != 0: raise ToolError("literal replay died: " + rr.stderr[-1000:])
+            rep = json.loads(rr.stdout.strip().split("\n")[-1])
+            j.evaluations = rep["evaluations"]; j.nontrivial = rep["distinct_nontrivial"]; j.samples = rep["samples"][:2]
+            for m in rep["mismatches"]:
+                m.update({"kind": "transition", "machine": "literal", "cfg": hc}); j.mismatches.append(m)
+            j.wall = time.time() - t0
+            jobs.append(j)
+    finally:
+        shutil.rmtree(tmp, ignore_errors=True)
+    return jobs
+
 def run_jobs(thunks, parallel=6):
     """Run job thunks in a thread pool; ToolError propagates."""
     jobs = []
